@@ -214,9 +214,11 @@ Section SyslineReaderProofs.
   Variable bs : N.
   Variable f : file.
   Hypothesis Hbs : 0 < bs.
+  (* the invariant of the inner LineReader: lr_inv (every block can be read) for the theorems about plain
+     files, lr_inv0 plus the stream invariant for streamed files (CachesFwdProofs) *)
+  Context {LI : lr_state -> Prop}.
 
   Local Notation sline_ok := (sline_ok bs f).
-  Local Notation lr_inv := (lr_inv bs f).
   Local Notation is_group := (is_group dated f).
 
   (* consecutive stored lines covering b .. e1-1 *)
@@ -299,18 +301,15 @@ Section SyslineReaderProofs.
     end.
 
   Record sr_inv (st : sr_state) : Prop := mk_sr_inv {
-    si_lr : lr_inv (s_lr st);
+    si_lr : LI (s_lr st);
     si_sys : forall k s, alookup k (s_syslines st) = Some s -> exists g, is_group k g /\ ssl_ok s k g;
     si_range : forall a b v, In (a, b, v) (s_range st) -> exists g, is_group v g /\ a = v /\ b = v + glen g;
     si_lru : forall k r, alookup k (s_lru st) = Some r -> sres_entry_ok k r;
     si_parse : forall k z, alookup k (s_parse st) = Some z ->
                  k < lenN f /\ line_beg f k = k /\ dated (slice f k (line_end f k + 1)) = Some z }.
 
-  Lemma sr_inv_init : sr_inv sr_init.
-  Proof. split; cbn; intros; try discriminate; try contradiction. apply lr_inv_init. Qed.
-
   (* rebuild the invariant after a change of the inner LineReader, the LRU caches or the counters *)
-  Lemma sr_inv_upd st l lru on p pon nid cnt : sr_inv st -> lr_inv l ->
+  Lemma sr_inv_upd st l lru on p pon nid cnt : sr_inv st -> LI l ->
     (forall k r, alookup k lru = Some r -> sres_entry_ok k r) ->
     (forall k z, alookup k p = Some z -> k < lenN f /\ line_beg f k = k /\ dated (slice f k (line_end f k + 1)) = Some z) ->
     sr_inv (mkSR l (s_syslines st) (s_range st) lru on p pon nid cnt).
@@ -319,7 +318,7 @@ Section SyslineReaderProofs.
   Lemma sr_inv_cnt d st : sr_inv st -> sr_inv (sr_cnt d st).
   Proof. intro I. unfold sr_cnt. apply sr_inv_upd; try exact I; [apply (si_lr _ I)|apply (si_lru _ I)|apply (si_parse _ I)]. Qed.
 
-  Lemma sr_inv_set_lr l st : sr_inv st -> lr_inv l -> sr_inv (sr_set_lr l st).
+  Lemma sr_inv_set_lr l st : sr_inv st -> LI l -> sr_inv (sr_set_lr l st).
   Proof. intros I L. unfold sr_set_lr. apply sr_inv_upd; try exact I; [exact L|apply (si_lru _ I)|apply (si_parse _ I)]. Qed.
 
   Lemma sr_put_always_inv st fo r : sr_inv st -> sres_entry_ok fo r -> sr_inv (sr_put_always st fo r).
@@ -366,6 +365,166 @@ Section SyslineReaderProofs.
         * split; [apply sr_inv_cnt; exact I|]. split; [reflexivity|split; [repeat split|reflexivity]].
     - intro H; injection H as <- <-. split; [exact I|]. split; [reflexivity|split; [repeat split|reflexivity]].
   Qed.
+
+  (* ---------------------------------------------------------------- check_store, insert_sysline *)
+
+  (* the range map answers for a sysline that drop_sysline removed *)
+  Definition dropped_at (st : sr_state) (fo : N) : Prop :=
+    exists v, range_get (s_range st) fo = Some v /\ alookup v (s_syslines st) = None.
+
+  Definition sres_ok (st : sr_state) (fo : N) (r : res (N * ssl)) : Prop :=
+    match r with
+    | Found (n, s) => exists b g, is_group b g /\ ssl_ok s b g /\ spec_find_sysline dated f fo = Some (n, b, g)
+    | Done => spec_find_sysline dated f fo = None
+    | Panic => dropped_at st fo
+    | OutOfFuel => False
+    end.
+
+  Lemma entry_sres_ok st fo r : sres_entry_ok fo r -> sres_ok st fo (sres_result r).
+  Proof. destruct r; cbn; auto. Qed.
+
+  Lemma on_put_always st fo r : s_on (sr_put_always st fo r) = s_on st.
+  Proof. reflexivity. Qed.
+  Lemma on_put st fo r : s_on (sr_put st fo r) = s_on st.
+  Proof. unfold sr_put. destruct (s_on st) eqn:E; [rewrite on_put_always|]; exact E || reflexivity. Qed.
+  Lemma on_cnt d st : s_on (sr_cnt d st) = s_on st.
+  Proof. reflexivity. Qed.
+  Lemma sys_put st fo r : s_syslines (sr_put st fo r) = s_syslines st.
+  Proof. unfold sr_put. destruct (s_on st); reflexivity. Qed.
+  Lemma range_put st fo r : s_range (sr_put st fo r) = s_range st.
+  Proof. unfold sr_put. destruct (s_on st); reflexivity. Qed.
+
+  Lemma sr_check_store_ok st fo o st2 : sr_inv st -> sr_check_store bs f st fo = (o, st2) ->
+    match o with
+    | Some (st', r, _) => sr_inv st' /\ sres_ok st fo r /\ s_syslines st' = s_syslines st /\ s_range st' = s_range st /\
+                          s_on st' = s_on st
+    | None => sr_inv st2 /\ frame st st2 /\ s_lru st2 = s_lru st /\ range_get (s_range st) fo = None
+    end.
+  Proof.
+    intros I. unfold sr_check_store.
+    set (step := if s_on st then _ else _).
+    assert (ST : exists x st1, step = (x, st1) /\ sr_inv st1 /\ frame st st1 /\
+                 match x with Some r => sres_entry_ok fo r | None => s_lru st1 = s_lru st end).
+    { subst step. destruct (s_on st).
+      - destruct (lru_get fo (s_lru st)) as [[r|] c] eqn:G.
+        + apply lru_get_Some in G as [A B]. eexists _, _. split; [reflexivity|].
+          split; [|split; [repeat split|eapply si_lru; eauto]].
+          apply sr_inv_cnt. unfold sr_set_lru. apply sr_inv_upd; try exact I; [apply (si_lr _ I)| |apply (si_parse _ I)].
+          intros k x X. eapply si_lru; eauto.
+        + eexists _, _. split; [reflexivity|]. split; [apply sr_inv_cnt; exact I|]. split; [repeat split|reflexivity].
+      - eexists _, _. split; [reflexivity|]. split; [exact I|]. split; [repeat split|reflexivity]. }
+    destruct ST as (x & st1 & -> & I1 & (F1 & F2 & F3) & X).
+    destruct x as [r|].
+    { intro H; injection H as <- <-. split; [exact I1|]. split; [apply entry_sres_ok; exact X|]. repeat split; assumption. }
+    destruct (range_get (s_range st1) fo) as [v|] eqn:RG.
+    - pose proof RG as RG'. rewrite F2 in RG'.
+      apply range_get_Some in RG as (a & b & IN & A1 & A2).
+      destruct (si_range _ I1 _ _ _ IN) as (g & G & -> & ->).
+      pose proof (spec_at_group dated f _ _ _ G A1 A2) as SPEC.
+      cbn [s_syslines sr_cnt].
+      destruct (alookup v (s_syslines st1)) as [s|] eqn:LK.
+      + destruct (si_sys _ I1 _ _ LK) as (g' & G' & OK).
+        pose proof (is_group_unique dated f _ _ _ G G'). subst g'.
+        destruct (is_group_pos dated f _ _ G) as (P & _).
+        destruct (ssl_ok_facts _ _ _ OK P) as (_ & EN & _). rewrite EN.
+        replace (v + glen g - 1 + 1) with (v + glen g) by lia.
+        intro H; injection H as <- <-. split.
+        * apply sr_put_always_inv; [apply sr_inv_cnt; exact I1|]. exists v, g. auto.
+        * split; [exists v, g; auto|]. repeat split; assumption.
+      + intro H; injection H as <- <-. split; [apply sr_inv_cnt; exact I1|].
+        split; [exists v; rewrite <- F1; auto|]. repeat split; assumption.
+    - cbn [s_syslines sr_cnt].
+      destruct (alookup fo (s_syslines st1)) as [s|] eqn:LK.
+      + destruct (si_sys _ I1 _ _ LK) as (g & G & OK).
+        destruct (is_group_pos dated f _ _ G) as (P & _).
+        destruct (ssl_ok_facts _ _ _ OK P) as (_ & EN & _). rewrite EN.
+        replace (fo + glen g - 1 + 1) with (fo + glen g) by lia.
+        pose proof (spec_at_group dated f _ _ fo G ltac:(lia) ltac:(lia)) as SPEC.
+        assert (EOK : sres_entry_ok fo (SF (fo + glen g) s)) by (exists fo, g; auto).
+        intro H; injection H as <- <-. split.
+        * destruct (is_sysline_last bs f (ss_sysline s));
+            [apply sr_put_always_inv|apply sr_put_inv]; first [exact EOK|apply sr_inv_cnt; apply sr_inv_cnt; exact I1].
+        * split; [exists fo, g; auto|].
+          destruct (is_sysline_last bs f (ss_sysline s)); rewrite ?on_put, ?sys_put, ?range_put; cbn;
+            repeat split; assumption.
+      + intro H; injection H as <- <-. split; [apply sr_inv_cnt; apply sr_inv_cnt; exact I1|].
+        split; [repeat split; assumption|]. split; [exact X|]. rewrite <- F2. exact RG.
+  Qed.
+
+  Lemma range_cut_exact a g st : sr_inv st -> is_group a g ->
+    forall x, In x (range_cut a (a + glen g) (s_range st)) ->
+    exists a' b' v, x = (a', b', v) /\ exists g', is_group v g' /\ a' = v /\ b' = v + glen g'.
+  Proof.
+    intros I G x IN.
+    destruct (In_range_cut _ _ _ _ IN) as (s & e & v & INR & C).
+    destruct (si_range _ I _ _ _ INR) as (g' & G' & -> & ->).
+    destruct (is_group_pos dated f _ _ G) as (P & _). destruct (is_group_pos dated f _ _ G') as (P' & _).
+    destruct (with_offsets_disjoint _ _ _ _ _ _ G G') as [E|[E|E]].
+    - inversion E; subst. destruct C as [[_ C]|[_ C]]; lia.
+    - destruct C as [[_ C]|[-> C]]; [lia|].
+      exists (N.max v (a + glen g)), (v + glen g'), v. split; [reflexivity|]. exists g'. repeat split; auto. lia.
+    - destruct C as [[-> C]|[_ C]]; [|lia].
+      exists v, (N.min (v + glen g') a), v. split; [reflexivity|]. exists g'. repeat split; auto. lia.
+  Qed.
+
+  Lemma sr_insert_ok st dt lns b g : sr_inv st -> is_group b g -> ssl_ok (s_nid st, dt, lns) b g ->
+    exists st', sr_insert bs st dt lns = Some (st', (s_nid st, dt, lns)) /\ sr_inv st' /\
+      s_syslines st' = ainsert b (s_nid st, dt, lns) (s_syslines st) /\
+      s_range st' = range_insert b (b + glen g) b (s_range st) /\
+      s_on st' = s_on st /\ s_lru st' = s_lru st.
+  Proof.
+    intros I G OK. destruct (is_group_pos dated f _ _ G) as (P & _).
+    destruct (ssl_ok_facts _ _ _ OK P) as (BG & EN & _).
+    unfold sr_insert. rewrite BG, EN. replace (b + glen g - 1 + 1) with (b + glen g) by lia.
+    eexists. split; [reflexivity|]. split; [|repeat split].
+    split; cbn.
+    - apply (si_lr _ I).
+    - intros k s. rewrite alookup_ainsert. destruct (N.eqb_spec k b).
+      + intro H; inversion H; subst. exists g. auto.
+      + apply (si_sys _ I).
+    - intros a' b' v IN. unfold range_insert in IN. destruct (N.ltb_spec b (b + glen g)); [|lia].
+      destruct IN as [IN|IN].
+      + inversion IN; subst. exists g. auto.
+      + destruct (range_cut_exact b g st I G _ IN) as (a2 & b2 & v2 & E & g' & G' & -> & ->).
+        inversion E; subst. exists g'. auto.
+    - apply (si_lru _ I).
+    - apply (si_parse _ I).
+  Qed.
+
+
+End SyslineReaderProofs.
+
+(* ================================================================ the reader of a file whose blocks can all be read *)
+
+Section SysPlain.
+  Variable dated : list N -> option Z.
+  Variable bs : N.
+  Variable f : file.
+  Hypothesis Hbs : 0 < bs.
+
+  Local Notation sline_ok := (sline_ok bs f).
+  Local Notation lr_inv := (lr_inv bs f).
+  Local Notation is_group := (is_group dated f).
+  Local Notation sr_inv := (@sr_inv dated bs f lr_inv).
+  Local Notation consec := (consec bs f).
+  Local Notation consec_app := (consec_app bs f).
+  Local Notation consec_end := (consec_end bs f Hbs).
+  Local Notation consec_begin := (consec_begin bs f).
+  Local Notation sbytes := (sbytes bs f).
+  Local Notation ssl_ok := (ssl_ok bs f).
+  Local Notation ssl_ok_facts := (ssl_ok_facts bs f Hbs).
+  Local Notation sres_entry_ok := (sres_entry_ok dated bs f).
+  Local Notation sres_ok := (sres_ok dated bs f).
+  Local Notation si_lr := (si_lr dated bs f).
+  Local Notation si_range := (si_range dated bs f).
+  Local Notation sr_inv_set_lr := (sr_inv_set_lr dated bs f).
+  Local Notation sr_put_inv := (sr_put_inv dated bs f).
+  Local Notation sr_parse_ok := (sr_parse_ok dated bs f Hbs).
+  Local Notation sr_check_store_ok := (sr_check_store_ok dated bs f Hbs).
+  Local Notation sr_insert_ok := (sr_insert_ok dated bs f Hbs).
+
+  Lemma sr_inv_init : sr_inv sr_init.
+  Proof. split; cbn; intros; try discriminate; try contradiction. apply lr_inv_init. Qed.
 
   Lemma sr_find_line_ok st acc fo st' r : sr_inv st -> sr_find_line bs f st acc fo = (st', r) ->
     sr_inv st' /\ lres_ok bs f fo r /\ frame st st' /\ s_lru st' = s_lru st.
@@ -533,132 +692,6 @@ Section SyslineReaderProofs.
       split; [exact I3|]. split; [eapply frame_trans; [eapply frame_trans|]; eauto|]. split; [congruence|exact R3].
   Qed.
 
-  (* ---------------------------------------------------------------- check_store, insert_sysline *)
-
-  (* the range map answers for a sysline that drop_sysline removed *)
-  Definition dropped_at (st : sr_state) (fo : N) : Prop :=
-    exists v, range_get (s_range st) fo = Some v /\ alookup v (s_syslines st) = None.
-
-  Definition sres_ok (st : sr_state) (fo : N) (r : res (N * ssl)) : Prop :=
-    match r with
-    | Found (n, s) => exists b g, is_group b g /\ ssl_ok s b g /\ spec_find_sysline dated f fo = Some (n, b, g)
-    | Done => spec_find_sysline dated f fo = None
-    | Panic => dropped_at st fo
-    | OutOfFuel => False
-    end.
-
-  Lemma entry_sres_ok st fo r : sres_entry_ok fo r -> sres_ok st fo (sres_result r).
-  Proof. destruct r; cbn; auto. Qed.
-
-  Lemma on_put_always st fo r : s_on (sr_put_always st fo r) = s_on st.
-  Proof. reflexivity. Qed.
-  Lemma on_put st fo r : s_on (sr_put st fo r) = s_on st.
-  Proof. unfold sr_put. destruct (s_on st) eqn:E; [rewrite on_put_always|]; exact E || reflexivity. Qed.
-  Lemma on_cnt d st : s_on (sr_cnt d st) = s_on st.
-  Proof. reflexivity. Qed.
-  Lemma sys_put st fo r : s_syslines (sr_put st fo r) = s_syslines st.
-  Proof. unfold sr_put. destruct (s_on st); reflexivity. Qed.
-  Lemma range_put st fo r : s_range (sr_put st fo r) = s_range st.
-  Proof. unfold sr_put. destruct (s_on st); reflexivity. Qed.
-
-  Lemma sr_check_store_ok st fo o st2 : sr_inv st -> sr_check_store bs f st fo = (o, st2) ->
-    match o with
-    | Some (st', r, _) => sr_inv st' /\ sres_ok st fo r /\ s_syslines st' = s_syslines st /\ s_range st' = s_range st /\
-                          s_on st' = s_on st
-    | None => sr_inv st2 /\ frame st st2 /\ s_lru st2 = s_lru st /\ range_get (s_range st) fo = None
-    end.
-  Proof.
-    intros I. unfold sr_check_store.
-    set (step := if s_on st then _ else _).
-    assert (ST : exists x st1, step = (x, st1) /\ sr_inv st1 /\ frame st st1 /\
-                 match x with Some r => sres_entry_ok fo r | None => s_lru st1 = s_lru st end).
-    { subst step. destruct (s_on st).
-      - destruct (lru_get fo (s_lru st)) as [[r|] c] eqn:G.
-        + apply lru_get_Some in G as [A B]. eexists _, _. split; [reflexivity|].
-          split; [|split; [repeat split|eapply si_lru; eauto]].
-          apply sr_inv_cnt. unfold sr_set_lru. apply sr_inv_upd; try exact I; [apply (si_lr _ I)| |apply (si_parse _ I)].
-          intros k x X. eapply si_lru; eauto.
-        + eexists _, _. split; [reflexivity|]. split; [apply sr_inv_cnt; exact I|]. split; [repeat split|reflexivity].
-      - eexists _, _. split; [reflexivity|]. split; [exact I|]. split; [repeat split|reflexivity]. }
-    destruct ST as (x & st1 & -> & I1 & (F1 & F2 & F3) & X).
-    destruct x as [r|].
-    { intro H; injection H as <- <-. split; [exact I1|]. split; [apply entry_sres_ok; exact X|]. repeat split; assumption. }
-    destruct (range_get (s_range st1) fo) as [v|] eqn:RG.
-    - pose proof RG as RG'. rewrite F2 in RG'.
-      apply range_get_Some in RG as (a & b & IN & A1 & A2).
-      destruct (si_range _ I1 _ _ _ IN) as (g & G & -> & ->).
-      pose proof (spec_at_group dated f _ _ _ G A1 A2) as SPEC.
-      cbn [s_syslines sr_cnt].
-      destruct (alookup v (s_syslines st1)) as [s|] eqn:LK.
-      + destruct (si_sys _ I1 _ _ LK) as (g' & G' & OK).
-        pose proof (is_group_unique dated f _ _ _ G G'). subst g'.
-        destruct (is_group_pos dated f _ _ G) as (P & _).
-        destruct (ssl_ok_facts _ _ _ OK P) as (_ & EN & _). rewrite EN.
-        replace (v + glen g - 1 + 1) with (v + glen g) by lia.
-        intro H; injection H as <- <-. split.
-        * apply sr_put_always_inv; [apply sr_inv_cnt; exact I1|]. exists v, g. auto.
-        * split; [exists v, g; auto|]. repeat split; assumption.
-      + intro H; injection H as <- <-. split; [apply sr_inv_cnt; exact I1|].
-        split; [exists v; rewrite <- F1; auto|]. repeat split; assumption.
-    - cbn [s_syslines sr_cnt].
-      destruct (alookup fo (s_syslines st1)) as [s|] eqn:LK.
-      + destruct (si_sys _ I1 _ _ LK) as (g & G & OK).
-        destruct (is_group_pos dated f _ _ G) as (P & _).
-        destruct (ssl_ok_facts _ _ _ OK P) as (_ & EN & _). rewrite EN.
-        replace (fo + glen g - 1 + 1) with (fo + glen g) by lia.
-        pose proof (spec_at_group dated f _ _ fo G ltac:(lia) ltac:(lia)) as SPEC.
-        assert (EOK : sres_entry_ok fo (SF (fo + glen g) s)) by (exists fo, g; auto).
-        intro H; injection H as <- <-. split.
-        * destruct (is_sysline_last bs f (ss_sysline s));
-            [apply sr_put_always_inv|apply sr_put_inv]; first [exact EOK|apply sr_inv_cnt; apply sr_inv_cnt; exact I1].
-        * split; [exists fo, g; auto|].
-          destruct (is_sysline_last bs f (ss_sysline s)); rewrite ?on_put, ?sys_put, ?range_put; cbn;
-            repeat split; assumption.
-      + intro H; injection H as <- <-. split; [apply sr_inv_cnt; apply sr_inv_cnt; exact I1|].
-        split; [repeat split; assumption|]. split; [exact X|]. rewrite <- F2. exact RG.
-  Qed.
-
-  Lemma range_cut_exact a g st : sr_inv st -> is_group a g ->
-    forall x, In x (range_cut a (a + glen g) (s_range st)) ->
-    exists a' b' v, x = (a', b', v) /\ exists g', is_group v g' /\ a' = v /\ b' = v + glen g'.
-  Proof.
-    intros I G x IN.
-    destruct (In_range_cut _ _ _ _ IN) as (s & e & v & INR & C).
-    destruct (si_range _ I _ _ _ INR) as (g' & G' & -> & ->).
-    destruct (is_group_pos dated f _ _ G) as (P & _). destruct (is_group_pos dated f _ _ G') as (P' & _).
-    destruct (with_offsets_disjoint _ _ _ _ _ _ G G') as [E|[E|E]].
-    - inversion E; subst. destruct C as [[_ C]|[_ C]]; lia.
-    - destruct C as [[_ C]|[-> C]]; [lia|].
-      exists (N.max v (a + glen g)), (v + glen g'), v. split; [reflexivity|]. exists g'. repeat split; auto. lia.
-    - destruct C as [[-> C]|[_ C]]; [|lia].
-      exists v, (N.min (v + glen g') a), v. split; [reflexivity|]. exists g'. repeat split; auto. lia.
-  Qed.
-
-  Lemma sr_insert_ok st dt lns b g : sr_inv st -> is_group b g -> ssl_ok (s_nid st, dt, lns) b g ->
-    exists st', sr_insert bs st dt lns = Some (st', (s_nid st, dt, lns)) /\ sr_inv st' /\
-      s_syslines st' = ainsert b (s_nid st, dt, lns) (s_syslines st) /\
-      s_range st' = range_insert b (b + glen g) b (s_range st) /\
-      s_on st' = s_on st /\ s_lru st' = s_lru st.
-  Proof.
-    intros I G OK. destruct (is_group_pos dated f _ _ G) as (P & _).
-    destruct (ssl_ok_facts _ _ _ OK P) as (BG & EN & _).
-    unfold sr_insert. rewrite BG, EN. replace (b + glen g - 1 + 1) with (b + glen g) by lia.
-    eexists. split; [reflexivity|]. split; [|repeat split].
-    split; cbn.
-    - apply (si_lr _ I).
-    - intros k s. rewrite alookup_ainsert. destruct (N.eqb_spec k b).
-      + intro H; inversion H; subst. exists g. auto.
-      + apply (si_sys _ I).
-    - intros a' b' v IN. unfold range_insert in IN. destruct (N.ltb_spec b (b + glen g)); [|lia].
-      destruct IN as [IN|IN].
-      + inversion IN; subst. exists g. auto.
-      + destruct (range_cut_exact b g st I G _ IN) as (a2 & b2 & v2 & E & g' & G' & -> & ->).
-        inversion E; subst. exists g'. auto.
-    - apply (si_lru _ I).
-    - apply (si_parse _ I).
-  Qed.
-
-
   (* ---------------------------------------------------------------- the pure loops never run out of fuel *)
 
   Lemma loop_a_not_oof fo : loop_a dated (2 * length f + 3) bs f fo false 0 <> OutOfFuel.
@@ -783,4 +816,4 @@ Section SyslineReaderProofs.
         destruct F23 as (Z1 & Z2 & Z3). split; [left; split; assumption|exact Z3].
       + exfalso. exact (loop_a_not_oof fo PA).
   Qed.
-End SyslineReaderProofs.
+End SysPlain.
